@@ -130,6 +130,7 @@ extern "C" void h_eb_point_count(void) {
     for (int k = 0; k < NF; ++k) { const uint32_t nxt = swr(opp, cur); if (nxt == INV) break; if (a2v[0][nxt] != a2v[0][cur]) verif_assume((seam_w[0][0] >> v) & 1); if (nxt == vc[v]) break; cur = nxt; }
   }
   ct.num_isolated_vertices_ = (int)n_iso;
+  { const uint32_t no = nondet_u32(); verif_assume(no >= 1 && no <= nv); ct.num_original_vertices_ = (int)no; }   // the vertices beyond it are the copies made for non-manifold vertices
   // ---- the input mesh of the encoder: corner -> point id, compatible with the connectivity ----
   uint32_t pt[NC]; MeshFace eface_s[NF];
   for (int c = 0; c < NC; ++c) { pt[c] = nondet_u32(); verif_assume(pt[c] < NC); eface_s[c / 3][c % 3] = PointIndex(pt[c]); }
